@@ -427,7 +427,7 @@ func c12(w *core.World, r *core.Report) {
 		if f.Pkg == nil {
 			continue
 		}
-		pp := f.Pkg.Pkg.Path()
+		pp := core.PkgPath(f)
 		if !(pp == core.Module+"/pkg/utils" || pp == core.Module+"/pkg/tree" || pp == core.Module+"/pkg/datastore/target/netconf" || pp == core.Module+"/pkg/datastore") {
 			continue
 		}
@@ -490,7 +490,7 @@ func c12(w *core.World, r *core.Report) {
 		if f.Pkg == nil {
 			continue
 		}
-		pp := f.Pkg.Pkg.Path()
+		pp := core.PkgPath(f)
 		if !(pp == core.Module+"/pkg/utils" || pp == core.Module+"/pkg/tree" || pp == core.Module+"/pkg/datastore/target/netconf" || pp == core.Module+"/pkg/datastore") {
 			continue
 		}
@@ -589,7 +589,7 @@ func c12(w *core.World, r *core.Report) {
 		if f.Pkg == nil {
 			continue
 		}
-		if pp := f.Pkg.Pkg.Path(); pp != core.Module+"/pkg/utils" && pp != core.Module+"/pkg/datastore" && pp != core.Module+"/pkg/tree" {
+		if pp := core.PkgPath(f); pp != core.Module+"/pkg/utils" && pp != core.Module+"/pkg/datastore" && pp != core.Module+"/pkg/tree" {
 			continue
 		}
 		for _, b := range f.Blocks {
@@ -703,7 +703,7 @@ func c12(w *core.World, r *core.Report) {
 	// ---- DECIMAL-AGREE
 	r.Rule("DECIMAL-AGREE", 3, "every string -> decimal64 conversion goes through utils.ParseDecimal64 (sibling agreement): convertStringToTv, ConvertJsonValueToTv (through ConvertDecimal64), ConvertTypedValueToYANGType, ConvertDecimal64; no function of pkg/utils builds an sdcpb.Decimal64 literal from pieces of a split string elsewhere.")
 	for _, f := range w.RepoFns {
-		if f.Pkg == nil || f.Pkg.Pkg.Path() != core.Module+"/pkg/utils" {
+		if f.Pkg == nil || core.PkgPath(f) != core.Module+"/pkg/utils" {
 			continue
 		}
 		// composite literal of Decimal64: Alloc of sdcpb.Decimal64 with Digits store
